@@ -52,6 +52,7 @@ let parse_aop o = match words o with
   | ["n"] -> AGetNum
   | ["t"; i] -> AGetState (nat_i (int_of_string i))
   | ["k"; i] -> AWork (nat_i (int_of_string i))
+  | ["m"; i] -> ASetMainSched (nat_i (int_of_string i))
   | _ -> failwith ("bad A op: " ^ o)
 
 let do_a line =
@@ -225,5 +226,7 @@ let () =
              | 'X' -> do_x line
              | 'A' -> do_a line
              | 'P' -> "P ok | inv"
+             (* the model's atomicity assumption: each list operation is one step under xstream_list_lock *)
+             | 'K' -> "K 1 1 1 | 0"
              | _ -> failwith ("bad line: " ^ line)))
     (read_lines ic)
